@@ -16,6 +16,10 @@ use std::collections::HashSet;
 pub struct Needles {
     raw16: HashSet<[u8; 16]>,
     enc24: HashSet<[u8; 24]>,
+    /// the complete hex / base64 spellings of each secret, whatever they look like (a seed of one repeated byte has
+    /// no window that passes the distinctness rule); searched in text output only, never in datagrams, because 32
+    /// equal bytes do occur in honest responses (the all-zero padding node of a Merkle path)
+    full_text: Vec<Vec<u8>>,
     pub count: usize,
 }
 
@@ -49,8 +53,29 @@ impl Needles {
                 }
             }
         }
-        let count = raw16.len() + enc24.len();
-        Needles { raw16, enc24, count }
+        let mut full_text = vec![];
+        for (_, s) in secrets_of(seed) {
+            for e in [HEXLOWER.encode(&s), HEXUPPER.encode(&s), BASE64.encode(&s), BASE64_NOPAD.encode(&s), BASE64URL.encode(&s), BASE64URL_NOPAD.encode(&s)] {
+                full_text.push(e.into_bytes());
+            }
+            // Debug rendering of a byte slice: [1, 2, 3, ...]
+            full_text.push(format!("{:?}", s).into_bytes());
+        }
+        let count = raw16.len() + enc24.len() + full_text.len();
+        Needles { raw16, enc24, full_text, count }
+    }
+
+    /// like `find`, for text the server prints (log records, stdout/stderr): also the complete spellings
+    pub fn find_text(&self, hay: &[u8]) -> Option<String> {
+        if let Some(w) = self.find(hay) {
+            return Some(w);
+        }
+        for n in &self.full_text {
+            if hay.len() >= n.len() && hay.windows(n.len()).any(|w| w == n.as_slice()) {
+                return Some(format!("the complete spelling {:?} of a secret", String::from_utf8_lossy(n)));
+            }
+        }
+        None
     }
 
     /// first needle window found in `hay`, if any
@@ -112,7 +137,7 @@ fn check_leak(ctx: &mut Ctx, sc: &Scenario) -> Res {
     let logs = take_logs();
     for rec in logs.iter().chain(extra.iter()) {
         ctx.eval();
-        if let Some(w) = needles.find(rec.as_bytes()) {
+        if let Some(w) = needles.find_text(rec.as_bytes()) {
             return ctx.fail("secret-in-log", format!("log record {:?} contains {}", rec, w));
         }
     }
@@ -263,7 +288,7 @@ fn check_config_leak(ctx: &mut Ctx, c0: &ConfigLeak) -> Res {
     let logs = take_logs();
     for rec in logs.iter().chain(emitted.iter()) {
         ctx.eval();
-        if let Some(w) = needles.find(rec.as_bytes()) {
+        if let Some(w) = needles.find_text(rec.as_bytes()) {
             return ctx.fail(
                 format!("secret-in-log|config|{}", vname),
                 format!("configuration variant {:?} ({} source, log level {:?}): record {:?} contains {}", vname, if c.via_env { "ENV" } else { "file" }, log::max_level(), rec, w),
